@@ -48,6 +48,14 @@ def early(
     """
 
     background_tasks = set()
+    recalculations: dict[str, asyncio.Task] = {}  # cache key -> the recalculation of it running in this process
+
+    def _running_recalculation(cache_key: str) -> asyncio.Task | None:
+        task = recalculations.get(cache_key)
+        if task is None or task.done() or task.get_loop() is not asyncio.get_running_loop():
+            return None  # nothing running, or left behind by an event loop that is gone
+        return task
+
     ttl = ttl_to_seconds(ttl)
     early_ttl = ttl_to_seconds(early_ttl)
 
@@ -79,6 +87,11 @@ def early(
             ]
             cached = await backend.get(_cache_key, default=_empty)
             if cached is _empty:
+                recalculation = _running_recalculation(_cache_key)
+                if recalculation is not None:
+                    # the stored result expired while its recalculation is still running:
+                    # wait for that one instead of executing the function a second time
+                    return await asyncio.shield(recalculation)
                 return await _get_result_for_early(*args_to_call)
 
             early_expire_at, result = cached
@@ -93,6 +106,9 @@ def early(
             )
             if early_expire_at >= datetime.now(timezone.utc):
                 return return_or_raise(result)
+            if _running_recalculation(_cache_key) is not None:
+                # the lock key lives early_ttl seconds only, a slow recalculation outlives it
+                return return_or_raise(result)
             lock_key = _cache_key + _LOCK_SUFFIX
             if not await backend.set(lock_key, "1", expire=_early_ttl, exist=False):
                 return return_or_raise(result)
@@ -104,6 +120,13 @@ def early(
             task = asyncio.create_task(_get_result_for_early(*args_to_call, unlock=True))
             background_tasks.add(task)
             task.add_done_callback(background_tasks.discard)
+            recalculations[_cache_key] = task
+
+            def _forget(_task: asyncio.Task, _key: str = _cache_key) -> None:
+                if recalculations.get(_key) is _task:
+                    del recalculations[_key]
+
+            task.add_done_callback(_forget)
             if not background:
                 # the caller waited for the refresh: give it the fresh result, the old one may be past its ttl by now
                 return await task
